@@ -25,7 +25,7 @@ pub static PROP: Prop = Prop {
         "a panic in either build profile counts; the signature records the profile",
     ],
     profiles: Profiles::Both,
-    cases: |t| t.pick(240_000, 6_000_000),
+    cases: |t| t.pick(600_000, 6_000_000),
     budget_s: |t| t.pick(40, 420),
     run,
     min_nontrivial: 100,
